@@ -63,10 +63,15 @@ TAG_MAP.update(
 TYPE_MAP = decoder.TYPE_MAP.copy()
 
 # Put in non-ambiguous types for faster codec lookup
-for typeDecoder in TAG_MAP.values():
+for tagSet, typeDecoder in TAG_MAP.items():
     if typeDecoder.protoComponent is not None:
         typeId = typeDecoder.protoComponent.__class__.typeId
-        if typeId is not None and typeId not in TYPE_MAP:
+        # the type map is inherited too: codecs redefined here must
+        # replace the inherited ones, or they are bypassed whenever
+        # the decoder is guided by `asn1Spec`
+        if typeId is not None and (
+                typeId not in TYPE_MAP or
+                typeDecoder is not decoder.TAG_MAP.get(tagSet)):
             TYPE_MAP[typeId] = typeDecoder
 
 
